@@ -796,6 +796,13 @@ def _run(case: Dict[str, Any], sim: Sim, world: World, clock: SimClock) -> None:
                 sim.probe("analyser_attribute_rekeyed")
                 g_blind = view_ref(Gv, True, False)
                 auts_b = gr.automorphisms(g_blind, limit=6001)
+                if len(auts_b) <= 6000:
+                    # the same selection given at construction time
+                    s_c = CRNCanonicalizer(H, edge_attr_keys=("role",), **flag_kwargs(op)).summary()
+                    if not s_c["early_stop"] and (s_c["automorphism_count"] != len(auts_b)
+                                                  or as_orbit_set(s_c["orbits"]) != gr.orbits_of(g_blind.nodes, auts_b)):
+                        raise Violation(PROP, site, "automorphism_count_wrong", "bipartite view; edge_attr_keys=('role',) at construction",
+                                        {"got": s_c["automorphism_count"], "true": len(auts_b), "net": nets[which]})
                 for keys, want_n, want_orb in ((("role",), len(auts_b), gr.orbits_of(g_blind.nodes, auts_b)),
                                                (("role", "stoich"), T["count"], T["orbits"])):
                     try:
